@@ -42,7 +42,7 @@ def handleK4 (op : String) (j : Json) : Option (Except String Json) :=
     return Json.mkObj [("outcome", Json.str (outcomeStr (outcome cg d))),
                        ("determined", Json.bool (determined cg pre d)),
                        ("guard", match g with
-                                 | some g => Json.str (g.func ++ " | " ++ g.cond)
+                                 | some g => Json.str (g.func ++ " | " ++ g.cond ++ (if g.path = "" then "" else "   [within: " ++ g.path ++ "]"))
                                  | none => Json.null),
                        ("guards", Json.num cg.guards.length)]
   | "k4.alias" => some do
